@@ -1145,6 +1145,26 @@ def real_read_attr(sources, givens, doc_of, entry=None):
 
 
 # --------------------------------------------------------------------------
+# type name lookup  (model: lean/XsdataModel/Gen/TypeLookup.lean)
+# --------------------------------------------------------------------------
+def real_find_dependency(tag, cands, target):
+    """ProcessAttributeTypes.find_dependency in a real container that holds one class per candidate tag, all
+    with one qualified name; `target`: the index of the class that owns the attr (None: another class)"""
+    from xsdata.codegen.container import ClassContainer
+    from xsdata.codegen.handlers import ProcessAttributeTypes
+    from xsdata.codegen.models import AttrType, Class
+    from xsdata.models.config import GeneratorConfig
+
+    classes = [Class(qname="{urn:t}n", tag=t, location="mem") for t in cands]
+    other = Class(qname="{urn:t}owner", tag="Element", location="mem")
+    container = ClassContainer(GeneratorConfig())
+    container.extend(classes + [other])
+    owner = classes[target] if target is not None else other
+    res = ProcessAttributeTypes(container).find_dependency(owner, AttrType(qname="{urn:t}n"), tag)
+    return None if res is None else next(i for i, c in enumerate(classes) if c is res)
+
+
+# --------------------------------------------------------------------------
 # real sites
 # --------------------------------------------------------------------------
 def renumber(sites):
